@@ -10,7 +10,11 @@ OUT=/verif/seeded/$NAME; mkdir -p "$OUT"
 cp "$WT/seed/patch.diff" "$OUT/patch.diff" || exit 2
 rm -rf "$OUT/demo"; cp -r "$WT/seed/demo" "$OUT/demo" 2>/dev/null
 cp "$WT/seed/meta.json" "$OUT/agent_meta.json" 2>/dev/null
-DEMO_CMD=$(python3 -c "import json;print(json.load(open('$WT/seed/meta.json')).get('demo_cmd',''))")
+DEMO_CMD=$(python3 -c "
+import json,re
+c=json.load(open('$WT/seed/meta.json')).get('demo_cmd','')
+c=re.split(r'\s{2,}\(|\s+\(demo file|\s+#', c)[0]
+print(c)")
 echo "== demo cmd: $DEMO_CMD"
 cd "$WT" || exit 2
 echo "== build with change"; go build -ldflags=-checklinkname=0 ./... 2>&1 | grep -v "^/usr/bin/ld\|^#" | tail -3; echo "build_rc=${PIPESTATUS[0]}"
